@@ -1,11 +1,21 @@
 #!/usr/bin/env python3
-"""specs/expected.json: the clauses (target/clause) discharged on the unchanged tree, per property, taken from the
-evidence files of a green run. Committed; never written by a check."""
+"""specs/expected.json: the clauses (target/clause) discharged on the unchanged tree, per tier and property, taken from
+the evidence files of a green run (the tier a file was written by is recorded in it). Committed; never written by a
+check. Only the tiers present among the current evidence files are replaced."""
 import glob, json, os
 V = os.path.dirname(os.path.dirname(os.path.abspath(__file__)))
-out = {}
+path = os.path.join(V, "specs", "expected.json")
+try:
+    out = json.load(open(path))
+    if "quick" not in out and "thorough" not in out:
+        out = {"quick": out}
+except (OSError, ValueError):
+    out = {}
 for f in sorted(glob.glob(os.path.join(V, "evidence", "C*.json"))):
     e = json.load(open(f))
-    out[e["property_id"]] = sorted(k for k, v in e["coverage"].get("clauses", {}).items() if v == "discharged")
-json.dump(out, open(os.path.join(V, "specs", "expected.json"), "w"), indent=1)
-print({k: len(v) for k, v in out.items()})
+    if e.get("violations") or e["coverage"]["obligations"] != e["coverage"]["discharged"]:
+        print("skipped (not green):", f)
+        continue
+    out.setdefault(e["tier"], {})[e["property_id"]] = sorted(k for k, v in e["coverage"].get("clauses", {}).items() if v == "discharged")
+json.dump(out, open(path, "w"), indent=1, sort_keys=True)
+print({t: {k: len(v) for k, v in d.items()} for t, d in out.items()})
